@@ -3,6 +3,7 @@
 package stub
 
 import (
+	"sync/atomic"
 	"time"
 
 	"github.com/cinar/indicator/v2/asset"
@@ -16,6 +17,11 @@ import (
 type Scripted struct {
 	Label string
 	Word  []strategy.Action
+	// OneShot: only the first Compute call replays the word; later calls on the same instance
+	// replay it inverted (a strategy fed by a live signal, a random baseline: the Strategy
+	// interface does not promise repeatability). Calls counts the Compute calls.
+	OneShot bool
+	Calls   int32
 }
 
 // Name returns the label.
@@ -24,6 +30,7 @@ func (s *Scripted) Name() string { return s.Label }
 // Compute emits Word[i] for the i-th snapshot.
 func (s *Scripted) Compute(c <-chan *asset.Snapshot) <-chan strategy.Action {
 	out := make(chan strategy.Action, cap(c))
+	invert := atomic.AddInt32(&s.Calls, 1) > 1 && s.OneShot
 	go func() {
 		defer close(out)
 		i := 0
@@ -31,6 +38,9 @@ func (s *Scripted) Compute(c <-chan *asset.Snapshot) <-chan strategy.Action {
 			a := strategy.Hold
 			if i < len(s.Word) {
 				a = s.Word[i]
+			}
+			if invert {
+				a = -a
 			}
 			out <- a
 			i++
